@@ -43,8 +43,8 @@ def interrupt_first_order(run, tier):
     tab = approx_table(run)
     if tab is None: return
     rnd = random.Random(seed() * 17 + 11)
-    n = 70 if tier == "quick" else 700
-    K = 5 if tier == "quick" else 8
+    n = 70 if tier == "quick" else 300
+    K = 5 if tier == "quick" else 6
     progs, impl = [], []
     for i in range(n):
         p = po.sample_program(rnd, i, finite_share=0.5); impl.append(p)
